@@ -278,6 +278,7 @@ func c12Case(c *core.Ctx) *core.Result {
 		var op, argc string
 		var err error
 		valid := true
+		undetermined := false
 		var call func()
 		switch r.Intn(12) {
 		case 0:
@@ -320,6 +321,12 @@ func c12Case(c *core.Ctx) *core.Result {
 			rec.Gutter = a
 		case 9:
 			gt := []document.DocGridType{document.DocGridDefault, document.DocGridLines, document.DocGridSnapToChars, document.DocGridSnapToLines, ""}[r.Intn(5)]
+			if r.Chance(1, 6) {
+				// a grid type outside the library's constants: the statement does not say whether that is a valid request, so the
+				// answer is the library's - but a rejection must change nothing and an acceptance must apply the whole request
+				gt = []document.DocGridType{"chars", "linesAndChars", "bogus"}[r.Intn(3)]
+				undetermined = true
+			}
 			pitch, cs := r.Range(0, 800), []int{0, 0, 5, 120}[r.Intn(4)]
 			op, argc = "SetDocGrid", fmt.Sprintf("%s,%d,%d", gt, pitch, cs)
 			call = func() { err = d.SetDocGrid(gt, pitch, cs) }
@@ -340,6 +347,10 @@ func c12Case(c *core.Ctx) *core.Result {
 			}
 			if r.Bool() {
 				s.DocGridType, s.DocGridLinePitch, s.DocGridCharSpace = []document.DocGridType{document.DocGridLines, document.DocGridSnapToChars}[r.Intn(2)], r.Range(0, 600), []int{0, 7}[r.Intn(2)]
+				if r.Chance(1, 5) {
+					s.DocGridType = []document.DocGridType{"chars", "linesAndChars", "bogus"}[r.Intn(3)]
+					undetermined = true
+				}
 			}
 			op, argc = "SetPageSettings", fmt.Sprintf("%+v", *s)
 			call = func() { err = d.SetPageSettings(s) }
@@ -369,6 +380,10 @@ func c12Case(c *core.Ctx) *core.Result {
 		if cg := core.Catch(call); cg != nil {
 			res.Add(op+"/"+cg.Key(), op+" panicked: "+cg.Msg, note, cg.Stack)
 			break
+		}
+		if undetermined && valid {
+			valid = err == nil
+			res.Count("requests_whose_validity_the_library_decides", 1)
 		}
 		if !valid {
 			rec = prev
